@@ -7,6 +7,7 @@ TITLE = "trust-anchor policies bind the calendar root to the anchor"
 
 
 def run(prog, chk):
+    extended_chain_table(prog, chk)
     chk.explanation = (
         "R5/R7 over CALENDAR_BASED, KEY_BASED, PUBLICATIONS_FILE_BASED, USER_PUBLICATION_BASED and GENERAL: every evaluation path "
         "ending OK satisfies the internal certificate AND the anchor certificate of the policy (written from the statement: "
@@ -36,3 +37,34 @@ def run(prog, chk):
     PC.check_receive_calendar(prog, chk, "C04.receive")
     chk.rule("C04.rightlinks", "CAL-04: the extender's right links are exactly the signature's right links (scenario table over link lists)", floor=10)
     PC.check_right_links(prog, chk, "C04.rightlinks")
+
+
+def extended_chain_table(prog, chk):
+    """Every extender-based rule (CAL-01..04, PUB-01..03) judges the chain that getExtendedCalendarHashChain hands it: that is the
+    chain received from the extender during this verification (context temp data) or nothing - never the signature's own calendar
+    chain, which would be compared with itself.  Decision table over what the temp data holds x whether the signature has a chain."""
+    import itertools
+    from ksirules.interp import TOP, Interp, Ptr, succeed_model
+    from ksirules.model import AnalysisBroken
+    chk.rule("C04.extchain", "extender-based rules get the extender's chain or an error, never the signature's own chain (decision table)", floor=6)
+    fn = prog.fn("getExtendedCalendarHashChain", "verification_rule.c")
+    ip, cp = [p["n"] for p in fn.params]
+    for temp, own in itertools.product(("no temp data", "no chain received", "chain received"), (0, 1)):
+        inputs = {ip: Ptr("INFO"), cp: Ptr("OUT"), "INFO->ctx": Ptr("ctx"), "INFO->signature": Ptr("SIG"), "INFO->tempData": 0 if temp == "no temp data" else Ptr("TEMP"),
+                  "TEMP->calendarChain": Ptr("EXTCHAIN") if temp == "chain received" else 0, "SIG->calendarChain": Ptr("OWNCHAIN") if own else 0,
+                  "TEMP->extendedSig": 0, "TEMP->aggregationOutputHash": 0, "TEMP->publicationsFile": 0}
+        I = Interp(fn, inputs=inputs, call_model=succeed_model(prog, {}), on_unknown="stop", prog=prog)
+        paths = I.run()
+        chk.paths += len(paths)
+        inst = "extended chain[%s, signature %s a calendar chain]" % (temp, "has" if own else "has not")
+        if len(paths) != 1 or paths[0].undetermined or paths[0].ret is TOP:
+            raise AnalysisBroken("getExtendedCalendarHashChain: evaluation not determined for %s: %s" % (inst, [q.undetermined[:1] for q in paths]))
+        q = paths[0]
+        out = [t[2] for t in q.stores("*" + cp)] + [t[2] for t in q.stores("OUT")]
+        if temp == "chain received":
+            ok = q.ret == 0 and out[-1:] == [Ptr("EXTCHAIN")]
+        else:
+            ok = q.ret != 0 and not any(v not in (0, None) for v in out)
+        chk.ob("C04.extchain", inst, ok, "expected %s; source: status %s, chain handed out %s" % (
+            "the extender's chain" if temp == "chain received" else "an error and no chain", hex(q.ret) if isinstance(q.ret, int) else q.ret, out),
+            loc=fn.loc(), fn=fn, nontrivial=(temp != "chain received"))
